@@ -3101,6 +3101,7 @@ def c17(ctx):
         if impl["trace"] == model["trace"]:
             touched[inp["id"]] = model.get("touched", [])
     c17_intervals_tie(ctx, jobs, touched)
+    c17_astdiff_tie(ctx, jobs)
     d = ctx.scratch("cc")
     pth = os.path.join(d, "in.jsonl")
     meta = {}
@@ -3244,6 +3245,61 @@ def c17_respects_single(ctx, patches, src):
     if not out:
         return None
     return (sx_field(out[2:], "respects") or ["1"])[0] == "1"
+
+def union_of(ivs):
+    """the set of positions covered by the valid intervals, as a sorted list of merged intervals"""
+    out = []
+    for a, b in sorted((a, b) for a, b in ivs if a < b):
+        if out and a <= out[-1][1]:
+            out[-1][1] = max(out[-1][1], b)
+        else:
+            out.append([a, b])
+    return out
+
+def c17_astdiff_tie(ctx, jobs):
+    """internal/astdiff + internal/diff against their Lean model (AstDiff.lean): for every change that applies, the
+    snapshot before it and the snapshot Snapshot.Diff returns are dumped (harness/astdiff, injected into the package by
+    -overlay); the model diffs the same two values. Compared: the positions covered by the regions reported as changed,
+    and the comment associations carried over to the new snapshot."""
+    d = ctx.scratch("ad")
+    pth = os.path.join(d, "in.jsonl")
+    with open(pth, "w") as f:
+        for cid, patches, src in jobs:
+            f.write(json.dumps({"id": cid, "patches": patches, "src": src}) + "\n")
+    r = run([ctx.harness, "astdiff", "-inputs", pth, "-out", d], timeout=1800)
+    if r.returncode != 0:
+        ctx.broken("harness", "zzverif astdiff failed: " + r.stderr[-1500:])
+        return
+    with open(os.path.join(d, "astdiff.cases")) as f:
+        m = subprocess.run([ctx.driver], stdin=f, stdout=subprocess.PIPE, stderr=subprocess.PIPE, text=True, timeout=1800)
+    impl = open(os.path.join(d, "astdiff.impl")).read().splitlines()
+    model = m.stdout.splitlines()
+    if len(impl) != len(model) or not impl:
+        ctx.broken("driver", f"astdiff stream: impl {len(impl)} model {len(model)} {m.stderr[-300:]}")
+        return
+    byid = {cid: (patches, src) for cid, patches, src in jobs}
+    bad = 0
+    for a, b in zip(impl, model):
+        ctx.evaluations += 1
+        ctx.count("astdiff_steps")
+        sa, sb_ = parse_sx(a), parse_sx(b)
+        ia = [(int(x[0]), int(x[1])) for x in (sx_field(sa[2:], "changed") or [])]
+        ib = [(int(x[0]), int(x[1])) for x in (sx_field(sb_[2:], "changed") or [])]
+        if sa[1].rsplit(".", 1)[-1] != "0":
+            ctx.count("astdiff_later_steps")
+        if ia:
+            ctx.count("astdiff_steps_reporting")
+        snap = sx_field(sb_[2:], "snap") or ["?"]
+        if sx_field(sb_[2:], "modeltrouble"):
+            ctx.count("astdiff_model_trouble")
+        if union_of(ia) != union_of(ib) or snap[0] != "ok" or sa[1] != sb_[1]:
+            bad += 1
+            if bad <= 3:
+                patches, src = byid.get(sa[1].rsplit(".", 1)[0], ([""], ""))
+                what = (f"changed regions: implementation {union_of(ia)}, model {union_of(ib)}" if union_of(ia) != union_of(ib)
+                        else f"comment associations of the new snapshot differ at value {snap[1:]}")
+                ctx.broken("correspondence", f"astdiff step {sa[1]}: {what}; patches {patches!r}; file {src[:400]!r}")
+    ctx.extra["astdiff_disagreements"] = bad
 
 def c17_intervals_tie(ctx, jobs, touched):
     """Lean filterComments on the changed intervals of the real engine vs the comments of the real output; and the
